@@ -354,6 +354,9 @@ def run(ctx, tier):
     import c08
     results += c08.start_compare(ctx, rule='C07.range-start-compare')
     results += c08.index_agreement(ctx, rule='C07.index-agreement')
+    results += c08.key_order(ctx, rule='C07.key-order')
+    import c01
+    results += c01.carriers(ctx, rule='C07.carriers')
     # reads reflect EXACTLY the transaction's own changes: a refused mutation must not leave a partial one behind
     import c06
     results += c06.error_atomic(ctx, rule='C07.error-atomic')
